@@ -252,7 +252,11 @@ Section Env.
   Definition env_cut_off (e : env) (s en : Z) : res env :=
     _ <- check_time s ; _ <- check_start_end_strict s en ;
     e1 <- sample_at e s 0 ;
-    v0 <- value_at e1 s ;
+    (* value of the first control point at s (sample_at just made sure there is one) *)
+    v0 <- match index_of s (pstarts e1) with
+          | Some k => match nth_error e1 k with Some p => Ok (pv p) | None => Err EIndexError end
+          | None => Err EValueError
+          end ;
     e2 <- sample_at e1 en 0 ;
     p_squash (p_cut_off s en 0 e2) s (mkPt 0 v0 zero).
 
